@@ -4,7 +4,7 @@
 EXTENDS PixCoord
 CONSTANTS Ops
 
-Shapes == {<<>>, <<0>>, <<1>>, <<3>>, <<2, 3>>, <<1, 3>>, <<2, 1>>, <<2, 2, 3>>}
+Shapes == {<<>>, <<0>>, <<1>>, <<3>>, <<2, 3>>, <<1, 3>>, <<2, 1>>, <<2, 2, 3>>, <<3, 2>>, <<6>>}     \* <<3, 2>>, <<6>>: same number of elements as <<2, 3>> without broadcasting against it
 SmallShapes == {<<>>, <<1>>, <<3>>, <<2, 3>>, <<1, 3>>, <<2, 1>>}
 X(s) == MkArr(s, 3, 1)
 Y(s) == MkArr(s, -2, 7)
